@@ -170,6 +170,12 @@ func (c *Client) StatBlobs(ctx context.Context, blobs []blob.Ref, fn func(blob.S
 	if len(needStat) == 0 {
 		return nil
 	}
+	// Do discovery before the helper takes HTTP gate slots for its workers:
+	// each worker needs the prefix, and the discovery request itself needs a
+	// slot, so with all slots taken by workers nothing could make progress.
+	if _, err := c.prefix(); err != nil {
+		return err
+	}
 	return blobserver.StatBlobsParallelHelper(ctx, needStat, fn, c.httpGate, func(br blob.Ref) (workerSB blob.SizedRef, err error) {
 		err = c.doStat(ctx, []blob.Ref{br}, 0, false, func(sb blob.SizedRef) error {
 			// StatBlobsParallelHelper calls fn (serialized) with the value returned here.
